@@ -73,6 +73,14 @@ Theorem c04_held_entry_answers_its_key h k v :
 Proof. exact (held_entry_answers_its_key h k v). Qed.
 Print Assumptions c04_held_entry_answers_its_key.
 
+(** A dump is the store's content and loading it is the identity on it: after a
+    reload (restart) a key yields only what the dump or the cache held under that
+    very key ([Judge.C04.hist_run] runs dump / reload steps with [reload]). *)
+Theorem c04_reload_serves_only_what_was_held fresh dump st k v :
+  lookup k (reload fresh dump st) = Some v -> lookup k dump = Some v \/ lookup k st = Some v.
+Proof. exact (reload_serves_only_what_was_held fresh dump st k v). Qed.
+Print Assumptions c04_reload_serves_only_what_was_held.
+
 (** The same, for the outcome recorded at any position of any run (this is the
     list [Judge.C04.agree] compares with the observed one). *)
 Theorem c04_run_hits_only_same_question h1 q om oh h2 v :
